@@ -45,6 +45,13 @@ class C05Stop(Monitor):
         self.entered_in_step += 1
         if self.T is not None:
             self.enters_after[deme.id] += 1
+            try:
+                gens = self.ctx.desc["levels"][deme.level].get("gens", 1)
+            except Exception:
+                gens = 1
+            if gens >= 2 and type(deme).__name__ in POP_BOUND_ENGINES:
+                # the wind-down bound (one generation) is only a constraint on an engine configured for several per metaepoch
+                self.cov(f"metaepoch_entered_after_true_with_2_or_more_generations_configured.{type(deme).__name__}")
             if deme.id == self.inflight:
                 self._bad("the deme in flight when the GSC became true ran another metaepoch", deme=deme.id)
             elif self.enters_after[deme.id] > 1:
